@@ -68,6 +68,10 @@ func NewBinding(queue string, exchange string, routingKey string, arguments *amq
 	// at binding time.
 	xmatch, ok := (*arguments)["x-match"]
 	if ok {
+		// the amqp-0-9-1 table reader hands a long string over as bytes, the rabbit one as a string
+		if raw, isBytes := xmatch.([]byte); isBytes {
+			xmatch = string(raw)
+		}
 		if xmatch == "all" {
 			binding.MatchType = MatchAll
 		} else if xmatch == "any" {
